@@ -150,6 +150,36 @@ def check(ctx):
         ok = len(call.args) >= 2 and norm(call.args[0]) == xo.params[0] and norm(call.args[1]) == xo.params[1]
         ctx.ob("SIB-10", xo, norm(call), call, ok, "path and mode are forwarded" if ok else
                f"opener for {suf} does not receive (path, mode)", nontrivial=False)
+    # every opener receives the caller's keyword arguments (encoding, newline, ...)
+    openers = list(xdetails.items()) + [("(none)", r.value) for r in plain if isinstance(r.value, ast.Call)]
+    for suf, call in openers:
+        fwd = xo.kwarg is not None and any(k.arg is None and isinstance(k.value, ast.Name) and k.value.id == xo.kwarg
+                                           for k in call.keywords)
+        ctx.ob("SIB-10", xo, f"keyword arguments reach {norm(call.func)} for suffix {suf}", call, fwd,
+               f"**{xo.kwarg} is forwarded" if fwd else
+               f"the opener for suffix {suf} is called without **{xo.kwarg}: the encoding requested by the caller is dropped for "
+               f"those paths and the platform default is used instead, so a file written in another encoding than the default "
+               f"cannot be read back consistently (CSV is read back through the binary route)",
+               clause="every encoding option used consistently on both sides, and for paths ending in .gz, .bz2 or .xz")
+    # a mode without an explicit 't' or 'b' means text for open() but binary for gzip/bz2/lzma.open()
+    n_modes = 0
+    for q, f in sorted(repo.functions.items()):
+        if f.module.name.startswith("dataiter.test"):
+            continue
+        for ff, c in calls_in(f, False):
+            if repo.dotted(ff, c.func) != "dataiter.util.xopen":
+                continue
+            mode = c.args[1] if len(c.args) > 1 else kw(c, "mode")
+            n_modes += 1
+            lit = mode.value if isinstance(mode, ast.Constant) and isinstance(mode.value, str) else None
+            okm = lit is not None and (("t" in lit) != ("b" in lit))
+            ctx.ob("SIB-10", ff, f"mode of {norm(c)[:70]}", c, okm,
+                   f"mode {lit!r} names its text/binary class explicitly" if okm else
+                   f"mode {norm(mode) if mode is not None else 'default'} has no explicit 't' or 'b': builtins.open reads it as text but "
+                   f"gzip.open / bz2.open / lzma.open read it as binary, so compressed paths behave differently from plain ones "
+                   f"(encoding= is rejected in binary mode, str is written to a bytes stream)",
+                   clause="paths ending in .gz, .bz2 or .xz ... transparently decompressed on read")
+    ctx.count("xopen call sites", n_modes, 10)
     ok = bool(plain) and all(isinstance(r.value, ast.Call) and repo.dotted(xo, r.value.func) == "builtins.open"
                              and len(r.value.args) >= 2 and norm(r.value.args[1]) == xo.params[1] for r in plain)
     ctx.ob("SIB-10", xo, "fallback open(path, mode, **kwargs)", plain[0] if plain else xo.node, ok,
@@ -227,15 +257,22 @@ def check(ctx):
                clause="every encoding option used consistently on both sides")
     lw, lr = repo.fn(f"{LOD}.write_csv"), repo.fn(f"{LOD}.read_csv")
     feats = {}
+    DIALECT = ("dialect", "delimiter", "quotechar", "escapechar", "doublequote", "skipinitialspace", "lineterminator", "quoting", "strict")
     for fn in (lw, lr):
         for f, c in calls_in(fn):
             d = repo.dotted(f, c.func)
             if d in ("csv.DictWriter", "csv.reader", "csv.writer", "csv.DictReader"):
-                dia = kw(c, "dialect")
-                deli = kw(c, "delimiter")
-                feats[fn.name] = (norm(dia) if dia is not None else None, norm(deli) if deli is not None else None)
-    ok = len(feats) == 2 and feats.get("write_csv") == feats.get("read_csv") and feats["write_csv"][1] == "sep"
-    ctx.ob("FWD-live", lr, f"csv dialect/delimiter {feats}", lr.node, ok,
-           "ListOfDicts CSV reader and writer use the same dialect and delimiter=sep" if ok else
-           f"ListOfDicts CSV reader and writer disagree on dialect/delimiter: {feats}",
+                feats[fn.name] = {k: norm(kw(c, k)) for k in DIALECT if kw(c, k) is not None}
+                if any(k.arg is None for k in c.keywords):
+                    feats[fn.name]["**"] = "unknown"
+    SYM = ("dialect", "delimiter", "quotechar", "escapechar", "doublequote", "**")
+    wf, rf = feats.get("write_csv", {}), feats.get("read_csv", {})
+    neutral = {None, "csv.QUOTE_MINIMAL", "csv.QUOTE_ALL"}   # the reader parses both alike
+    ok = (len(feats) == 2 and all(wf.get(k) == rf.get(k) for k in SYM) and wf.get("delimiter") == "sep"
+          and rf.get("skipinitialspace") in (None, "False")
+          and (wf.get("quoting") == rf.get("quoting") or {wf.get("quoting"), rf.get("quoting")} <= neutral))
+    ctx.ob("FWD-live", lr, f"csv formatting parameters {feats}", lr.node, ok,
+           "ListOfDicts CSV reader and writer are given the same formatting parameters (dialect, delimiter=sep, quoting, ...)" if ok else
+           f"ListOfDicts CSV reader and writer disagree on the formatting parameters: {feats} -- a parameter given to one side only "
+           f"(e.g. skipinitialspace on the reader) makes the reader parse text differently from how the writer wrote it",
            clause="every delimiter option used consistently on both sides")
